@@ -2,5 +2,6 @@
 \* violated for n = 0 — the design-level counterpart of the get_power_series(b, 0) panic.  Not a gate.
 SPECIFICATION Spec
 CONSTANTS MaxN = 3  MinBatches = {4}  Ops = {"pow"}  GuardEmpty = FALSE  MaxStates = 20000
+CONSTANTS Threads = {1, 2, 3, 4, 5, 6, 7, 8, 9, 10, 11, 12, 13, 14, 15, 16}  PermRule = "pow2"
 INVARIANT InBounds
 CHECK_DEADLOCK FALSE
